@@ -43,4 +43,5 @@ registry! {
     c15::C15,
     c16::C16,
     c17::C17,
+    c18::C18,
 }
